@@ -1385,6 +1385,24 @@ pub fn build_cff1(f: &Cff1) -> Vec<u8> {
 
 /// `build_cff1` on borrowed parts; `cid` = Some((font DICT of each glyph, FDSelect format)) makes the font CID-keyed.
 pub fn build_cff1_parts(charstrings: &[Vec<u8>], gsubrs: &SubrIndex, charset_spec: &Charset, fds: &[PrivateSpec], cid_spec: Option<(&[u8], u8)>) -> Vec<u8> {
+    build_cff1_opts(charstrings, gsubrs, charset_spec, fds, cid_spec, &Cff1Opts::default())
+}
+
+/// Layout / content options of `build_cff1_opts`
+#[derive(Clone, Debug, Default, PartialEq)]
+pub struct Cff1Opts {
+    /// hdrSize; 0 = the usual 4. Larger values insert extension bytes between the header and the Name INDEX (all offsets
+    /// in the Top DICT are absolute and shift with them)
+    pub hdr_size: u8,
+    /// raw DICT entries added to the Top DICT (after ROS / FontBBox, before the offset operators)
+    pub top_extra: Vec<u8>,
+    /// raw DICT entries added to each Font DICT of a CID-keyed font (before Private)
+    pub font_dict_extra: Vec<Vec<u8>>,
+}
+
+pub fn build_cff1_opts(charstrings: &[Vec<u8>], gsubrs: &SubrIndex, charset_spec: &Charset, fds: &[PrivateSpec], cid_spec: Option<(&[u8], u8)>, opts: &Cff1Opts) -> Vec<u8> {
+    let hdr = if opts.hdr_size == 0 { 4usize } else { opts.hdr_size as usize };
+    assert!(hdr >= 4);
     let n_glyphs = charstrings.len();
     let cid = cid_spec.is_some();
     let name_index = index_dense(&[b"VerifC18".to_vec()], false);
@@ -1425,6 +1443,7 @@ pub fn build_cff1_parts(charstrings: &[Vec<u8>], gsubrs: &SubrIndex, charset_spe
             }
             dict_op(dop::FONT_BBOX, &mut d);
         }
+        d.extend_from_slice(&opts.top_extra);
         if charset.is_some() {
             dict_int5(charset_off as i32, &mut d);
             dict_op(dop::CHARSET, &mut d);
@@ -1443,17 +1462,20 @@ pub fn build_cff1_parts(charstrings: &[Vec<u8>], gsubrs: &SubrIndex, charset_spe
         }
         d
     };
-    let font_dict = |size: usize, off: usize| -> Vec<u8> {
+    let font_dict_of = |f: usize, size: usize, off: usize| -> Vec<u8> {
         let mut d = Vec::new();
+        if let Some(e) = opts.font_dict_extra.get(f) {
+            d.extend_from_slice(e);
+        }
         dict_int5(size as i32, &mut d);
         dict_int5(off as i32, &mut d);
         dict_op(dop::PRIVATE, &mut d);
         d
     };
     let top_len = index_dense(&[top_dict(0, 0, 0, 0, 0)], false).len();
-    let fdarray_len = if cid { index_dense(&private_dicts.iter().map(|p| font_dict(p.len(), 0)).collect::<Vec<_>>(), false).len() } else { 0 };
+    let fdarray_len = if cid { index_dense(&private_dicts.iter().enumerate().map(|(f, p)| font_dict_of(f, p.len(), 0)).collect::<Vec<_>>(), false).len() } else { 0 };
 
-    let mut off = 4 + name_index.len() + top_len + string_index.len() + gsubr_index.len();
+    let mut off = hdr + name_index.len() + top_len + string_index.len() + gsubr_index.len();
     let charset_off = off;
     off += charset.as_ref().map(|c| c.len()).unwrap_or(0);
     let fdselect_off = off;
@@ -1479,7 +1501,10 @@ pub fn build_cff1_parts(charstrings: &[Vec<u8>], gsubrs: &SubrIndex, charset_spe
     } else {
         4
     };
-    w.u8(1).u8(0).u8(4).u8(off_size);
+    w.u8(1).u8(0).u8(hdr as u8).u8(off_size);
+    for i in 4..hdr {
+        w.u8(0xE0 + i as u8); // extension bytes a reader must skip
+    }
     w.bytes(&name_index);
     let td = index_dense(&[top_dict(charset_off, fdselect_off, cs_off, fdarray_off, priv_offs[0])], false);
     assert_eq!(td.len(), top_len);
@@ -1498,7 +1523,7 @@ pub fn build_cff1_parts(charstrings: &[Vec<u8>], gsubrs: &SubrIndex, charset_spe
     w.bytes(&charstrings_index);
     assert_eq!(w.len(), fdarray_off);
     if cid {
-        let fa = index_dense(&private_dicts.iter().zip(priv_offs.iter()).map(|(p, o)| font_dict(p.len(), *o)).collect::<Vec<_>>(), false);
+        let fa = index_dense(&private_dicts.iter().zip(priv_offs.iter()).enumerate().map(|(f, (p, o))| font_dict_of(f, p.len(), *o)).collect::<Vec<_>>(), false);
         assert_eq!(fa.len(), fdarray_len);
         w.bytes(&fa);
     }
@@ -1603,6 +1628,13 @@ pub fn build_cff2(f: &Cff2) -> Vec<u8> {
 
 /// `build_cff2` on borrowed parts
 pub fn build_cff2_parts(charstrings: &[Vec<u8>], gsubrs: &SubrIndex, fds: &[PrivateSpec], fdselect_spec: Option<(&[u8], u8)>, vstore_spec: Option<&VarStore>) -> Vec<u8> {
+    build_cff2_opts(charstrings, gsubrs, fds, fdselect_spec, vstore_spec, 5)
+}
+
+/// `build_cff2_parts` with a header of `hdr_size` >= 5 bytes (extension bytes between the header and the Top DICT)
+pub fn build_cff2_opts(charstrings: &[Vec<u8>], gsubrs: &SubrIndex, fds: &[PrivateSpec], fdselect_spec: Option<(&[u8], u8)>, vstore_spec: Option<&VarStore>, hdr_size: u8) -> Vec<u8> {
+    let hdr = hdr_size as usize;
+    assert!(hdr >= 5);
     let gsubr_index = index_sparse(gsubrs.count, &gsubrs.items, true);
     let vstore = vstore_spec.map(|v| {
         let b = ivs_bytes(v);
@@ -1642,7 +1674,7 @@ pub fn build_cff2_parts(charstrings: &[Vec<u8>], gsubrs: &SubrIndex, fds: &[Priv
     };
     let top_len = top_dict(0, 0, 0, 0).len();
     let fdarray_len = index_dense(&private_dicts.iter().map(|p| font_dict(p.len(), 0)).collect::<Vec<_>>(), true).len();
-    let mut off = 5 + top_len + gsubr_index.len();
+    let mut off = hdr + top_len + gsubr_index.len();
     let vs_off = off;
     off += vstore.as_ref().map(|v| v.len()).unwrap_or(0);
     let fds_off = off;
@@ -1658,7 +1690,10 @@ pub fn build_cff2_parts(charstrings: &[Vec<u8>], gsubrs: &SubrIndex, fds: &[Priv
     }
     let total = off;
     let mut w = W::new();
-    w.u8(2).u8(0).u8(5).u16(top_len as u16);
+    w.u8(2).u8(0).u8(hdr as u8).u16(top_len as u16);
+    for i in 5..hdr {
+        w.u8(0xE0 + i as u8);
+    }
     w.bytes(&top_dict(cs_off, fda_off, fds_off, vs_off));
     w.bytes(&gsubr_index);
     assert_eq!(w.len(), vs_off);
@@ -1792,6 +1827,8 @@ pub struct Env<'a> {
 }
 
 struct St {
+    /// the width operand of the charstring, if it has one
+    width: Option<f64>,
     stack: Vec<f64>,
     x: f64,
     y: f64,
@@ -1820,7 +1857,12 @@ fn grab(st: &mut St, buf: &mut [f64; 520]) -> Result<usize, String> {
 
 impl<'a> Env<'a> {
     pub fn interpret(&self, gid: u16) -> Result<Vec<Cmd>, String> {
-        let mut st = St { stack: Vec::with_capacity(16), x: 0.0, y: 0.0, open: false, first_clear: true, width_locked: false, nstems: 0, out: Vec::with_capacity(16), ended: false, vsindex: None, scal: None, seen_blend: false };
+        self.interpret_with_width(gid).map(|r| r.0)
+    }
+
+    /// the drawing commands and the width operand of the glyph's charstring (None: the charstring has none)
+    pub fn interpret_with_width(&self, gid: u16) -> Result<(Vec<Cmd>, Option<f64>), String> {
+        let mut st = St { width: None, stack: Vec::with_capacity(16), x: 0.0, y: 0.0, open: false, first_clear: true, width_locked: false, nstems: 0, out: Vec::with_capacity(16), ended: false, vsindex: None, scal: None, seen_blend: false };
         let cs = self.charstrings.get(gid as usize).ok_or("no such glyph")?;
         let fd = if self.dev.cff2_first_fd_only && self.cff2 { 0 } else { (self.fd_of_glyph)(gid) };
         self.run(cs, fd, 0, &mut st)?;
@@ -1831,7 +1873,7 @@ impl<'a> Env<'a> {
         } else if !st.ended {
             return Err("missing endchar".into());
         }
-        Ok(st.out)
+        Ok((st.out, st.width))
     }
 
     fn take_width(&self, st: &mut St, expect: usize, parity: bool) -> Result<(), String> {
@@ -1840,7 +1882,7 @@ impl<'a> Env<'a> {
         let extra = if parity { n % 2 == 1 } else { n == expect + 1 };
         if extra {
             if !self.cff2 && st.first_clear && !st.width_locked {
-                st.stack.remove(0);
+                st.width = Some(st.stack.remove(0));
             } else if parity && st.width_locked {
                 // deviation model: the odd operand is silently dropped by the stem operators
                 st.stack.remove(0);
@@ -2114,6 +2156,9 @@ impl<'a> Env<'a> {
                     let n = st.stack.len();
                     let width_ok = st.first_clear && !st.width_locked;
                     if n == 4 || (n == 5 && width_ok) {
+                        if n == 5 {
+                            st.width = Some(st.stack[0]);
+                        }
                         let a = st.stack.split_off(n - 4);
                         st.stack.clear();
                         let (adx, ady, bchar, achar) = (a[0], a[1], a[2], a[3]);
@@ -2125,7 +2170,7 @@ impl<'a> Env<'a> {
                         }
                         let mut carried = 0usize;
                         for (g, ox, oy) in [(bg, 0.0, 0.0), (ag, adx, ady)] {
-                            let mut sub = St { stack: Vec::new(), x: ox, y: oy, open: false, first_clear: true, width_locked: self.dev.seac_width_flag_shared, nstems: if self.dev.seac_stem_count_carried { carried } else { 0 }, out: Vec::new(), ended: false, vsindex: None, scal: None, seen_blend: false };
+                            let mut sub = St { width: None, stack: Vec::new(), x: ox, y: oy, open: false, first_clear: true, width_locked: self.dev.seac_width_flag_shared, nstems: if self.dev.seac_stem_count_carried { carried } else { 0 }, out: Vec::new(), ended: false, vsindex: None, scal: None, seen_blend: false };
                             let cs2 = self.charstrings.get(g as usize).ok_or("seac glyph")?;
                             self.run(cs2, (self.fd_of_glyph)(g), depth + 1, &mut sub)?;
                             if !sub.ended {
@@ -2135,6 +2180,9 @@ impl<'a> Env<'a> {
                             st.out.extend(sub.out);
                         }
                     } else if n == 0 || (n == 1 && width_ok) {
+                        if n == 1 {
+                            st.width = Some(st.stack[0]);
+                        }
                         st.stack.clear();
                     } else {
                         return Err(format!("endchar with {} operands", n));
@@ -2315,6 +2363,11 @@ fn dict_get(dict: &[(u16, Vec<f64>)], o: u16) -> Option<&Vec<f64>> {
 /// A CFF 1 table (first font), read lazily.
 pub struct Cff1Ref<'a> {
     d: &'a [u8],
+    /// Top DICT, Font DICTs (CID-keyed fonts) and Private DICTs (one per font DICT; exactly one for name-keyed fonts)
+    pub top: Vec<(u16, Vec<f64>)>,
+    pub font_dicts: Vec<Vec<(u16, Vec<f64>)>>,
+    pub privates: Vec<Vec<(u16, Vec<f64>)>>,
+    pub hdr_size: u8,
     pub charstrings: IndexRef<'a>,
     pub gsubrs: IndexRef<'a>,
     pub cid: bool,
@@ -2342,30 +2395,37 @@ impl<'a> Cff1Ref<'a> {
         let one = |o: u16| dict_get(&top, o).and_then(|v| v.first().copied()).map(|v| v as usize);
         let charstrings = IndexRef::read(d, one(dop::CHARSTRINGS).ok_or("Top DICT without CharStrings")?, false)?;
         let cid = top.first().map(|e| e.0) == Some(dop::ROS);
-        let private_of = |dict: &[(u16, Vec<f64>)]| -> Result<Option<IndexRef<'a>>, String> {
+        let mut privates: Vec<Vec<(u16, Vec<f64>)>> = Vec::new();
+        let mut font_dicts: Vec<Vec<(u16, Vec<f64>)>> = Vec::new();
+        let mut private_of = |dict: &[(u16, Vec<f64>)]| -> Result<Option<IndexRef<'a>>, String> {
             let p = dict_get(dict, dop::PRIVATE).ok_or("DICT without Private")?;
             if p.len() != 2 {
                 return Err("Private needs two operands".into());
             }
             let (size, off) = (p[0] as usize, p[1] as usize);
             let pd = read_dict(d.get(off..off + size).ok_or("Private DICT beyond the table")?)?;
-            match dict_get(&pd, dop::SUBRS).and_then(|v| v.first().copied()) {
-                Some(rel) => Ok(Some(IndexRef::read(d, off + rel as usize, false)?)),
-                None => Ok(None),
-            }
+            let r = match dict_get(&pd, dop::SUBRS).and_then(|v| v.first().copied()) {
+                Some(rel) => Some(IndexRef::read(d, off + rel as usize, false)?),
+                None => None,
+            };
+            privates.push(pd);
+            Ok(r)
         };
         let mut lsubrs = Vec::new();
         let mut fdselect_off = None;
         if cid {
             let fda = IndexRef::read(d, one(dop::FD_ARRAY).ok_or("CID font without FDArray")?, false)?;
             for i in 0..fda.count {
-                lsubrs.push(private_of(&read_dict(fda.get(i).ok_or("Font DICT unreadable")?)?)?);
+                let fdict = read_dict(fda.get(i).ok_or("Font DICT unreadable")?)?;
+                lsubrs.push(private_of(&fdict)?);
+                font_dicts.push(fdict);
             }
             fdselect_off = Some(one(dop::FD_SELECT).ok_or("CID font without FDSelect")?);
         } else {
             lsubrs.push(private_of(&top)?);
         }
-        Ok(Cff1Ref { d, charstrings, gsubrs, cid, lsubrs, charset_off: one(dop::CHARSET).unwrap_or(0), fdselect_off })
+        let charset_off = one(dop::CHARSET).unwrap_or(0);
+        Ok(Cff1Ref { d, top, font_dicts, privates, hdr_size: hdr as u8, charstrings, gsubrs, cid, lsubrs, charset_off, fdselect_off })
     }
 
     /// font DICT index of a glyph (0 for name-keyed fonts)
